@@ -410,6 +410,10 @@ def _il_cases(draw):
         g2.setdefault('relations', []).append(
             {'target': 'E1-top', 'relType': 'hypernym', 'meta': None})
         L['synsets'][-1]['ili'] = 'itop'
+    if n >= 2 and draw(st.integers(0, 3)) == 0:
+        # the local synset for one concept is a verb: a hypernym chain of nouns that passes
+        # through it (nothing in either file is invalid; across languages this happens)
+        L['synsets'][draw(st.integers(1, n - 1))]['partOfSpeech'] = 'v'
     case['corpus'] = draw(st.lists(st.sampled_from([f'w{i}' for i in range(n)] + ['zzz', 'w0']),
                                    min_size=1, max_size=6))
     case['smoothing'] = draw(st.sampled_from([0.0, 1.0, 0.5]))
@@ -431,9 +435,14 @@ def _il_classify(case):
     reach = _il_reach(case)
     L = case['lexicons']['L:1']
     tags = set()
+    pos_of = {ss['id']: ss['partOfSpeech'] for ss in L['synsets']}
     for tok in set(case['corpus']):
         if tok == 'zzz':
             continue
+        sid0 = L['synsets'][int(tok[1:])]['id']
+        if any(not k.startswith('*INFERRED*') and pos_of[k.partition('|')[2]] != pos_of[sid0]
+               for k in reach[sid0]):
+            tags.add('ancestor-of-another-pos')
         anc = reach[L['synsets'][int(tok[1:])]['id']]
         ph = [k for k in anc if k.startswith('*INFERRED*')]
         real = [k for k in anc if not k.startswith('*INFERRED*')]
@@ -461,31 +470,44 @@ def _il_oracle(case):
             return [Disc('interlingual:compute-raises', 'compute()', 'weights', got)]
         return [Disc(f'exception:{got[0]}', f'compute() in {got[1]}', 'no exception', got[2])]
     counts = Counter(t for t in case['corpus'] if t != 'zzz')
-    exp = {i: sm for i in ids}
+    pos_of = {ss['id']: ss['partOfSpeech'] for ss in L['synsets']}
+    exp = {p: {i: sm for i in ids if pos_of[i] == p} for p in ('n', 'v')}
+    total = {'n': sm, 'v': sm}
+    open_ = set()     # ancestors of another part of speech than the word's synset: the statement
+    #                   does not say which table (if any) their weight belongs to
     for tok, c in counts.items():
         sid = ids[int(tok[1:])]
+        p = pos_of[sid]
+        total[p] += c
         for k in {f'L:1|{sid}'} | set(reach[sid]):
-            if not k.startswith('*INFERRED*'):
-                exp[k.partition('|')[2]] += c
+            if k.startswith('*INFERRED*'):
+                continue
+            kid = k.partition('|')[2]
+            if pos_of[kid] == p:
+                exp[p][kid] += c
+            else:
+                open_.add(kid)
     out = []
-    g = dict(got.get('n', {}))
-    total = g.pop(None, None)
-    if not _close(total, sm + sum(counts.values())):
-        out.append(Disc('interlingual:total-differs', "freq['n'][None]",
-                        sm + sum(counts.values()), total))
-    if sorted(g) != sorted(exp):
-        out.append(Disc('interlingual:weight-keys-differ', "freq['n']", sorted(exp), sorted(g)))
-    else:
-        for i in ids:
-            if not _close(g[i], exp[i]):
-                out.append(Disc('interlingual:weight-differs', f"freq['n'][{i}]", exp[i], g[i]))
+    for p in ('n', 'v'):
+        g = dict(got.get(p, {}))
+        tot = g.pop(None, None)
+        if not _close(tot, total[p]):
+            out.append(Disc('interlingual:total-differs', f"freq[{p!r}][None]", total[p], tot))
+        if sorted(g) != sorted(exp[p]):
+            out.append(Disc('interlingual:weight-keys-differ', f"freq[{p!r}]", sorted(exp[p]),
+                            sorted(g)))
+            continue
+        for i in exp[p]:
+            if i not in open_ and not _close(g[i], exp[p][i]):
+                out.append(Disc('interlingual:weight-differs', f"freq[{p!r}][{i}]", exp[p][i],
+                                g[i]))
     return out[:_MAX_DISCS]
 
 
 SUBS = [
     Sub('interlingual', _il_oracle, _il_classify, strategy=lambda tier: _il_cases(),
         budget={'quick': 60, 'thorough': 1000}, sample=lambda c: c, case_timeout=120,
-        require_tags=('real-ancestor-beyond-placeholder',)),
+        require_tags=('real-ancestor-beyond-placeholder', 'ancestor-of-another-pos')),
     Sub('compute-and-load', oracle, _classify, strategy=_cases,
         budget={'quick': 250, 'thorough': 1000}, sample=_sample, purge_every=10,
         case_timeout=600,
